@@ -53,51 +53,71 @@ impl Application for App {
 
 
         if IndexController::is_matching(&request, connection) {
+            #[cfg(rws_verif)]
+            crate::verif_hooks::point("app.execute.matched");
             response = IndexController::process(&request, response, connection);
             return Ok(response)
         }
 
         if StyleController::is_matching(&request, connection) {
+            #[cfg(rws_verif)]
+            crate::verif_hooks::point("app.execute.matched");
             response = StyleController::process(&request, response, connection);
             return Ok(response)
         }
 
         if ScriptController::is_matching(&request, connection) {
+            #[cfg(rws_verif)]
+            crate::verif_hooks::point("app.execute.matched");
             response = ScriptController::process(&request, response, connection);
             return Ok(response)
         }
 
         if FileUploadInitiateController::is_matching(&request, connection) {
+            #[cfg(rws_verif)]
+            crate::verif_hooks::point("app.execute.matched");
             response = FileUploadInitiateController::process(&request, response, connection);
             return Ok(response)
         }
 
         if FormUrlEncodedEnctypePostMethodController::is_matching(&request, connection) {
+            #[cfg(rws_verif)]
+            crate::verif_hooks::point("app.execute.matched");
             response = FormUrlEncodedEnctypePostMethodController::process(&request, response, connection);
             return Ok(response)
         }
 
         if FormGetMethodController::is_matching(&request, connection) {
+            #[cfg(rws_verif)]
+            crate::verif_hooks::point("app.execute.matched");
             response = FormGetMethodController::process(&request, response, connection);
             return Ok(response)
         }
 
         if FormMultipartEnctypePostMethodController::is_matching(&request, connection) {
+            #[cfg(rws_verif)]
+            crate::verif_hooks::point("app.execute.matched");
             response = FormMultipartEnctypePostMethodController::process(&request, response, connection);
             return Ok(response)
         }
 
         if FaviconController::is_matching(&request, connection) {
+            #[cfg(rws_verif)]
+            crate::verif_hooks::point("app.execute.matched");
             response = FaviconController::process(&request, response, connection);
             return Ok(response)
         }
 
         if StaticResourceController::is_matching(&request, connection) {
+            #[cfg(rws_verif)]
+            crate::verif_hooks::point("app.execute.matched");
             response = StaticResourceController::process(&request, response, connection);
             return Ok(response)
         }
 
         if NotFoundController::is_matching(&request, connection) {
+            #[cfg(rws_verif)]
+            crate::verif_hooks::point("app.execute.matched");
             response = NotFoundController::process(&request, response, connection);
             return Ok(response)
         }
